@@ -6,9 +6,11 @@ package hysim
 import (
 	"encoding/json"
 	"fmt"
+	"os"
 	"runtime"
 	"sort"
 	"strings"
+	"testing/synctest"
 	"time"
 )
 
@@ -205,6 +207,12 @@ func (x *Run) Mix(s string) { x.fp = fnv(x.fp, s) }
 
 // Violate records the first violation of the run. It does not stop the run.
 func (x *Run) Violate(class string, format string, args ...any) {
+	if RaceMode && class != "panic" {
+		// race-detector twin of a harness: its per-step settling is off (see Settle), so the
+		// functional oracles are not meaningful there; they are judged in the ordinary build
+		x.Probes["oracle-not-judged-in-race-build:"+class]++
+		return
+	}
 	msg := fmt.Sprintf(format, args...)
 	if x.Trace {
 		x.Events = append(x.Events, fmt.Sprintf("%6d %12.6f !! VIOLATION %s: %s", x.seq, x.Now().Seconds(), class, msg))
@@ -213,6 +221,23 @@ func (x *Run) Violate(class string, format string, args ...any) {
 		return
 	}
 	x.Viol = &Violation{Class: class, Msg: msg, Seq: x.seq, AtNs: int64(x.Now())}
+}
+
+// RaceMode is set in race-detector builds of a harness (parts with "race": true).
+var RaceMode = os.Getenv("HYSIM_RACE") != ""
+
+// Settle is what a step-wise harness calls after each step. Ordinarily it waits for quiescence
+// (synctest.Wait), which also orders everything the other tasks did before the harness's next
+// step. For the race detector that ordering would hide every unsynchronised access of the code
+// under test behind the harness's own lock-step, so a race build only lets the other tasks run.
+func Settle() {
+	if RaceMode {
+		for i := 0; i < 4; i++ {
+			runtime.Gosched()
+		}
+		return
+	}
+	synctest.Wait()
 }
 
 // Violated reports whether a violation has been recorded.
